@@ -51,6 +51,7 @@ class OperationContext:
     # Resource tracking
     acquired_resources: dict[str, ResourceLock] = field(default_factory=dict)
     resources_acquired: bool = False
+    pending_requests: dict[str, bool] = field(default_factory=dict)  # resource ids this operation is blocked on
 
     # Execution tracking
     result: Any = None
@@ -196,23 +197,28 @@ class CellCycleController:
 
         if result == LockResult.ACQUIRED or result == LockResult.REENTRANT:
             ctx.add_acquired_resource(lock)
-            # Remove any dependency since we now own it
-            self.dependency_graph.remove_all_for_agent(ctx.operation_id)
 
         elif result == LockResult.BLOCKED:
-            # Add to dependency graph
-            self.dependency_graph.add_dependency(
-                waiter=ctx.operation_id,
-                blocking=lock.owner,
-                resource=resource_id,
-            )
+            # Remember the request; the wait-for edge follows the resource's owner
+            ctx.pending_requests[resource_id] = True
 
         elif result == LockResult.PREEMPTED:
             ctx.add_acquired_resource(lock)
-            # Clear old dependencies
-            self.dependency_graph.remove_all_for_agent(ctx.operation_id)
 
+        if result != LockResult.BLOCKED:
+            # Only the request for this resource is satisfied
+            ctx.pending_requests.pop(resource_id, None)
+        self._refresh_dependencies()
         return result
+
+    def _refresh_dependencies(self) -> None:
+        """Rebuild the wait-for graph from pending requests and current owners."""
+        self.dependency_graph.clear()
+        for op_id, op_ctx in self.active_operations.items():
+            for resource_id in op_ctx.pending_requests:
+                owner = self.resources[resource_id].owner
+                if owner is not None and owner != op_id:
+                    self.dependency_graph.add_dependency(op_id, owner, resource_id)
 
     def release_resource(self, ctx: OperationContext, resource_id: str) -> bool:
         """Release a resource."""
@@ -226,7 +232,7 @@ class CellCycleController:
 
         if released and not still_held:
             del ctx.acquired_resources[resource_id]
-            self.dependency_graph.remove_all_for_agent(ctx.operation_id)
+            self._refresh_dependencies()
 
         return released
 
@@ -251,6 +257,7 @@ class CellCycleController:
 
         if ctx.operation_id in self.active_operations:
             del self.active_operations[ctx.operation_id]
+        self._refresh_dependencies()
 
         duration = datetime.utcnow() - ctx.created_at
 
@@ -277,6 +284,7 @@ class CellCycleController:
 
         if ctx.operation_id in self.active_operations:
             del self.active_operations[ctx.operation_id]
+        self._refresh_dependencies()
 
         duration = datetime.utcnow() - ctx.created_at
 
